@@ -574,8 +574,12 @@ class SpectralDensity(DFunction, UnitsManaged):
         """
         import scipy.interpolate as interp
 
-        integr = self.data/self.axis.data
-        uvspl = interp.UnivariateSpline(self.axis.data, integr, s=0)
+        # J(omega)/omega; if the axis contains omega = 0 exactly, the ratio
+        # 0/0 is left out and the spline interpolates across the point
+        omega = self.axis.data
+        nonzero = (omega != 0.0)
+        integr = self.data[nonzero]/omega[nonzero]
+        uvspl = interp.UnivariateSpline(omega[nonzero], integr, s=0)
         integ = uvspl.integral(0.0, self.axis.max)/numpy.pi
 
         return integ
